@@ -31,7 +31,7 @@ def main():
     if tier not in ('quick', 'thorough'):
         print(__doc__)
         return 2
-    tier = os.environ.get('VERIF_TIER', tier) if os.environ.get('VERIF_TIER') in ('quick', 'thorough') else tier
+    # the command line decides the tier (quick_cmd / thorough_cmd); VERIF_TIER is informational
     seed = int(os.environ.get('VERIF_SEED', '0') or 0)
     ctx = Ctx(prop, tier, seed)
     t0 = time.time()
